@@ -182,7 +182,9 @@ impl Cx {
         if let Ok(path) = std::env::var("FV_ALL_VIOLATIONS") {
             use std::io::Write;
             if let Ok(mut f) = std::fs::OpenOptions::new().create(true).append(true).open(path) {
-                let _ = writeln!(f, "{}", json!({"sig": sig, "unit": unit, "sub": sub, "case": desc, "detail": detail}));
+                // one write call per record: appends from concurrent workers must not interleave
+                let line = format!("{}\n", json!({"sig": sig, "unit": unit, "sub": sub, "case": desc, "detail": detail}));
+                let _ = f.write_all(line.as_bytes());
             }
         }
         let e = self.violations.entry(sig.clone()).or_insert(Violation {
@@ -703,7 +705,7 @@ pub fn check_main(check: &dyn Check, tier: Tier) -> i32 {
     let budget_s: f64 = std::env::var("FV_BUDGET_S").ok().and_then(|s| s.parse().ok()).unwrap_or(
         match tier {
             Tier::Quick => 50.0,
-            Tier::Thorough => 1500.0,
+            Tier::Thorough => 3000.0,
         },
     );
     let agg_m = std::sync::Mutex::new(Agg::default());
